@@ -2,6 +2,8 @@
 
 RET rule: the byte count returned by every transport write is consumed by a write-all loop (or a comparison that
 raises).  Transport side: the shipped transports report the true count.
+The write loop is entered whenever the buffer is not empty (exits that avoid it are decided under len(buffer) >= 1); no handler around a write
+(RET-retry), and none around any call from which a write is reachable (RET-swallow), catches the AdbTimeoutError of a short write and completes.
 """
 import ast
 
